@@ -10,12 +10,28 @@
     Metamorphic oracle: with M0 = the smallest power-of-two limit under which B
     runs once, `for (N times) B` must run under 4*M0 with exactly N times the
     single-run log, and a sentinel thrown after the loop must surface uncaught.
+(a2) Call-free growth: pending operands that pile up without any function being
+    entered (nested / long array and object literals, long argument lists of
+    built-ins, right-nested operators) of 4x / 40x the operand budget M/100, at
+    program level and inside one function / callback / accessor activation.
+    Oracle: MemoryLimitError (or the engine's documented refusal to compile the
+    text: "Program too large" / "too deeply nested"), never a value or a host
+    exception; front-nested literals [[[1],1],1] hold one operand and must complete.
+(b2) Bounded try/catch/finally shapes: the handler statements of gens/c07gen.py
+    (shapes_product / shapes2_product / shapes3_product: every catch / finally /
+    try-block exit x nesting x placement of the throw) repeated N times inside ONE
+    function activation (the labelled loop around the statement) or, when the shape
+    leaves the loop at once, by N calls of the handler function (rep), under a
+    memory limit M with 100*N > M.  Oracle: outcome and log equal those of the run
+    without memory limit; MemoryLimitError only if the two-iteration program
+    does not fit into M either (then M is doubled).
 """
 import random
 import time
 
 from vf import core, engine, pool
-from checks import c01
+from checks import c01, proglib
+from gens import c07gen
 
 # ------------------------------------------------------------------ (a) growth
 RECURSION = {
@@ -457,12 +473,285 @@ def judge_bounded(chk, case, res):
                cls="b%d" % (seed % 7), per_class=1, total=24)
 
 
+# ------------------------------------------------------- (a2) call-free growth
+def _lit_nested_array(d):
+    return "[1," * d + "1" + "]" * d
+
+
+LITERALS = {
+    # name -> (text of an expression that keeps ~d operands pending while it is evaluated, max d worth generating)
+    "nested-array": (_lit_nested_array, 10 ** 6),
+    "nested-array-mid": (lambda d: "[1," * d + "1" + ",2]" * d, 10 ** 6),
+    "nested-array-3": (lambda d: "[1,2,3," * (d // 3) + "1" + "]" * (d // 3), 10 ** 6),
+    "nested-object": (lambda d: "{a:1,b:" * d + "1" + "}" * d, 400),
+    "array-object-alt": (lambda d: "[1,{a:" * (d // 2) + "1" + "}]" * (d // 2), 400),
+    "flat-array": (lambda d: "[" + ",".join(["1"] * d) + "]", 1000),
+    "flat-object": (lambda d: "{" + ",".join("k%d:1" % i for i in range(d)) + "}", 1000),
+    "native-args": (lambda d: "Math.max(" + ",".join(["1"] * d) + ")", 1000),
+    "method-args": (lambda d: "[].concat(" + ",".join(["1"] * d) + ")", 1000),
+    "new-args": (lambda d: "new Array(" + ",".join(["1"] * d) + ")", 1000),
+    "nested-native-args": (lambda d: "Math.max(1," * d + "1" + ")" * d, 400),
+    "cond-in-array": (lambda d: "[1, true ? " * d + "1" + " : 0]" * d, 400),
+    "plus-right": (lambda d: "1+(" * d + "1" + ")" * d, 100),
+    "string-plus-array": (lambda d: "['a' + " * d + "1" + "]" * d, 400),
+}
+LITERAL_WRAPS = {
+    "top": "var a = %s; 1;",
+    "top-expression": "(%s);",
+    "function": "var f = function(){ return %s; }; f();",
+    "callback": "[1].map(function(x){ return %s; });",
+    "getter": "var o = { get p(){ return %s; } }; o.p;",
+    "argument": "var id = function(x){ return 1; }; id(%s);",
+    "try": "var a = 0; try { a = %s; } catch (lim) { a = -1; } typeof a;",
+    "loop": "for (var i = 0; i < 3; i++) { var a = %s; } 1;",
+    "after-calls": "var g = function(n){ return n === 0 ? 0 : 1 + g(n - 1); }; g(3); g(2); var a = %s; 1;",
+}
+REFUSALS = ("Program too large", "too deeply nested")
+
+
+def literal_cases(chk):
+    cases = []
+    for m in (500, 1000, 2000, 10000):
+        for factor in (4, 40):
+            d = m // 100 * factor
+            for lname in sorted(LITERALS):
+                mk, dmax = LITERALS[lname]
+                if d > dmax:
+                    continue
+                for wname in sorted(LITERAL_WRAPS):
+                    if chk.tier == "quick" and d > 1000 and wname not in ("top", "function", "callback"):
+                        continue
+                    cases.append(("grow", lname, wname, m, d))
+            # control: the same nesting at the front holds one operand at a time - a bounded script
+            for wname in ("top", "function", "try"):
+                if m >= 1000:   # two frames and their operands need more than 500 bytes
+                    cases.append(("front", "front-nested-array", wname, m, d))
+    return cases
+
+
+def literal_src(case):
+    kind, lname, wname, m, d = case
+    if kind == "front":
+        return LITERAL_WRAPS[wname] % ("[" * d + "1" + ",1]" * d)
+    return LITERAL_WRAPS[wname] % LITERALS[lname][0](d)
+
+
+def run_literals(task):
+    m = engine.load()
+    out = []
+    for case in task:
+        src = literal_src(case)
+        ctx = m.Context(memory_limit=case[3], time_limit=None)
+        try:
+            with pool.cpu_alarm(60):
+                try:
+                    ctx.eval(src)
+                    out.append(("value", None))
+                except pool.HarnessTimeout:
+                    out.append(("hang", None))
+                except BaseException as e:
+                    if isinstance(e, (KeyboardInterrupt, SystemExit)):
+                        raise
+                    out.append(("exc", engine.exc_info(e)))
+        except pool.HarnessTimeout:
+            out.append(("hang", None))
+    return out
+
+
+def judge_literal(chk, case, res):
+    kind, lname, wname, mem, d = case
+    chk.count()
+    chk.classify("literal %s %s" % (kind, lname))
+    casej = {"sub": "literal", "kind": kind, "literal": lname, "wrap": wname, "M": mem, "d": d}
+    sig = "literal|%s|%s|" % ("front-nested" if kind == "front" else "growth", "program-level" if wname in ("top", "top-expression", "try", "loop", "after-calls") else "in-activation")
+    want = "MemoryLimitError" if kind == "grow" else "completes (one pending operand)"
+    if isinstance(res, (pool.HANG, pool.CRASH)) or res[0] == "hang":
+        chk.violation(sig + "not-stopped", casej, want, repr(res), sub="literal")
+        return
+    st, info = res
+    if kind == "front":
+        if st == "exc" and info["family"] and any(w in (info.get("message") or "") for w in REFUSALS):
+            chk.classify("literal: text refused at compile time (documented program-size bound)")
+        elif st != "value":
+            chk.violation(sig + "bounded-stopped:" + info["cls"], casej, want, [info["cls"], (info.get("message") or "")[:80]], sub="literal")
+        else:
+            chk.nontrivial("literal|front|%s|%s|%s" % (wname, mem, d))
+        return
+    if st == "value":
+        chk.violation(sig + "returned", casej, want, "eval returned (%d pending operands = %d bytes under M=%d)" % (d, 100 * d, mem), sub="literal")
+        return
+    if info["cls"] == "MemoryLimitError":
+        chk.nontrivial("literal|%s|%s|%s|%s" % (lname, wname, mem, d))
+        chk.sample({"sub": "literal", "literal": lname, "wrap": wname, "M": mem, "d": d, "outcome": "MemoryLimitError"}, cls="l" + lname, per_class=1, total=30)
+        return
+    if info["family"] and any(w in (info.get("message") or "") for w in REFUSALS):
+        chk.classify("literal: text refused at compile time (documented program-size bound)")
+        return
+    chk.violation(sig + "class:" + info["cls"], casej, want, [info["cls"], (info.get("message") or "")[:80], info.get("frame")], sub="literal")
+
+
+# ------------------------------------------- (b2) bounded try/catch/finally shapes
+UNW_HEAD = "L: for (i = 0; i < 2; i++)"
+UNW_M = 2000
+
+
+def unwind_cases(chk):
+    quick = chk.tier == "quick"
+    descs = []
+    per_shape = {}
+    for d in c07gen.shapes_product():
+        sid = (c07gen._shape_id(d["sh"]), bool(c07gen.shape_uses_loops(d["sh"])))
+        per_shape[sid] = per_shape.get(sid, 0) + 1
+        if quick and per_shape[sid] % 5 != 1:      # every 5th placement x site of a depth-1 shape
+            continue
+        descs.append(d)
+    descs += list(c07gen.shapes2_product()) + list(c07gen.shapes3_product())
+    descs = [d for d in descs if c07gen.shape_uses_loops(d["sh"]) or not d.get("top")]
+    if quick:
+        rnd = random.Random(core.shard_seed(chk.seed, "C02", "unwind"))
+        # shapes with break / continue exits repeat inside one activation (the class (b) does not reach): 1 in 4;
+        # the others repeat by calls of the handler function only: 1 in 8
+        loops = [i for i, d in enumerate(descs) if c07gen.shape_uses_loops(d["sh"])]
+        plain = [i for i, d in enumerate(descs) if not c07gen.shape_uses_loops(d["sh"])]
+        keep = sorted(rnd.sample(loops, len(loops) // 4) + rnd.sample(plain, len(plain) // 8))
+        descs = [descs[i] for i in keep]
+    # every case: never MemoryLimitError; every 3rd (thorough: every) case also: same outcome and log as without limit
+    return [(d, UNW_M // 100 + 5, UNW_M, (not quick) or i % 3 == 0) for i, d in enumerate(descs)]
+
+
+def _unw_eval(m, src, mem):
+    lg = []
+
+    def host_log(*a):
+        if len(lg) < 60000:
+            lg.append([a[0] if a and isinstance(a[0], str) else repr(a[:1]), proglib.norm_host(a[1]) if len(a) > 1 else ["u"]])
+
+    ctx = m.Context(memory_limit=mem, time_limit=None)
+    ctx.set("log", host_log)
+    try:
+        with pool.cpu_alarm(60):
+            try:
+                r = ctx.eval(src)
+                return ["value", engine.tv(r)], lg
+            except pool.HarnessTimeout:
+                return ["hang"], lg
+            except BaseException as e:
+                if isinstance(e, (KeyboardInterrupt, SystemExit)):
+                    raise
+                i = engine.exc_info(e)
+                return ["exc", i["cls"], i["name"], (i["message"] or "")[:120] if isinstance(i["message"], str) else repr(i["message"])[:120]], lg
+    except pool.HarnessTimeout:
+        return ["hang"], lg
+
+
+def unwind_sources(desc, n):
+    """(mode, two-iteration program, n-iteration program) candidates of a recipe: the labelled loop around the
+    handler statement run n times inside one activation, and the handler function called n more times."""
+    d0 = dict(desc, twice=0)    # one call of the handler function: the repetition is the loop's / rep's
+    d0.pop("rep", None)
+    src = c07gen.to_source(c07gen.build(d0))
+    out = []
+    if src.count(UNW_HEAD) == 1:
+        out.append(("loop", src, src.replace(UNW_HEAD, "L: for (i = 0; i < %d; i++)" % n)))
+    if not d0.get("top"):
+        out.append(("rep", c07gen.to_source(c07gen.build(dict(d0, rep=2))), c07gen.to_source(c07gen.build(dict(d0, rep=n)))))
+    return out
+
+
+def run_unwind1(m, case):
+    desc, n, mem, full = case
+    while True:
+        chosen = None
+        retry = False
+        for mode, src2, srcn in unwind_sources(desc, n):
+            lim, llog = _unw_eval(m, srcn, mem)
+            small = None
+            if lim[0] == "exc" and lim[1] == "MemoryLimitError":
+                small, _ = _unw_eval(m, src2, mem)
+                if small[0] == "exc" and small[1] == "MemoryLimitError" and mem < 40000:
+                    retry = True        # the statement itself does not fit: not a statement about repetition
+                    break
+                chosen = (mode, srcn, lim, llog, -1, small)
+                break
+            tags = [e[0] for e in llog]
+            rounds = tags.count("it") if mode == "loop" else tags.count("rr")
+            chosen = (mode, srcn, lim, llog, rounds, small)
+            if rounds >= n:
+                break       # the repetition really happens (a shape that leaves the loop at once falls back to rep)
+        if retry:
+            mem *= 2
+            n = mem // 100 + 5
+            continue
+        if chosen is None:
+            return {"stage": "no-program"}
+        mode, srcn, lim, llog, rounds, small = chosen
+        res = {"mode": mode, "rounds": rounds, "N": n, "M": mem, "lim": lim, "lim_log_len": len(llog), "small": small, "stage": "judged"}
+        if lim[0] == "hang":
+            res["stage"] = "inconclusive"
+            return res
+        if full or rounds < 0:
+            # the same program without memory limit: outcome and log must be the same
+            free, flog = _unw_eval(m, srcn, None)
+            if free[0] == "hang":
+                res["stage"] = "inconclusive"
+                return res
+            res.update({"free": free, "log_len": len(flog), "same": lim == free and llog == flog})
+            if not res["same"]:
+                res["src"] = srcn
+        return res
+
+
+def run_unwind(task):
+    m = engine.load()
+    return [run_unwind1(m, c) for c in task]
+
+
+def judge_unwind(chk, case, res):
+    desc, n, mem, full = case
+    chk.count()
+    chk.classify("unwind " + desc.get("c", "?"))
+    casej = {"sub": "unwind", "desc": desc, "N": n, "M": mem, "id": c07gen._desc_id(desc)}
+    if isinstance(res, (pool.HANG, pool.CRASH)):
+        chk.violation("unwind|%r" % res, casej, "same outcome as without memory limit", repr(res), sub="unwind")
+        return
+    if res["stage"] == "no-program":
+        chk.classify("unwind: no loop and no handler function to repeat")
+        return
+    if res["stage"] == "inconclusive":
+        chk.truncated = True
+        chk.classify("unwind: inconclusive (CPU budget)")
+        return
+    mode, lim = res["mode"], res["lim"]
+    casej.update({"mode": mode, "N": res["N"], "M": res["M"], "src": res.get("src")})
+    if lim[0] == "exc" and lim[1] == "MemoryLimitError":
+        small = res.get("small") or ["?"]
+        if small[0] == "exc" and small[1] == "MemoryLimitError":
+            chk.classify("unwind: statement needs more than 40000 bytes (not judged)")
+            return
+        chk.violation("unwind|MemoryLimitError|%s" % mode, casej,
+                      "%d repetitions under M=%d (two repetitions fit) end like the run without limit: %r" % (res["N"], res["M"], (res.get("free") or ["?"])[:2]),
+                      ["MemoryLimitError", "log entries %d of %d" % (res["lim_log_len"], res.get("log_len", -1))], sub="unwind")
+        return
+    chk.classify("unwind mode %s%s" % (mode, "" if res["rounds"] >= res["N"] else " (ends early)"))
+    if "same" in res:
+        chk.classify("unwind: compared with the run without limit")
+        if not res["same"]:
+            chk.violation("unwind|outcome-differs|%s" % mode, casej, [res["free"], "log %d" % res["log_len"]], [lim, "log %d" % res["lim_log_len"]], sub="unwind")
+            return
+    if res["rounds"] >= res["N"]:
+        chk.nontrivial("unwind|" + casej["id"])
+    chk.sample({"sub": "unwind", "id": casej["id"], "mode": mode, "N": res["N"], "M": res["M"], "log_entries": res["lim_log_len"], "outcome": lim[:2]},
+               cls="u" + mode + desc.get("c", ""), per_class=2, total=36)
+
+
 def main(chk):
     chk.rule = (
         "(a) recursion shapes (incl. every discovered callback-taking built-in, accessors, conversions, call/apply/bind, eval) x "
         "memory limits, non-trivial = depth >= 5 reached before MemoryLimitError; (b) seeded random bodies with abrupt exits "
         "run N times under 4x the single-run need, non-trivial = body with an abrupt exit out of for-in/for-of/switch/try or a "
-        "throw with pending operands; distinct by (shape, M, T) / generator seed"
+        "throw with pending operands; distinct by (shape, M, T) / generator seed; (a2) call-free operand growth (literal x wrapper x M x "
+        "4x/40x budget), non-trivial = stopped by MemoryLimitError (or front-nested control completed); (b2) c07gen try/catch/finally "
+        "recipes repeated N > M/100 times in one activation or by N calls, non-trivial = all N repetitions happened, distinct by recipe id"
     )
     chk.assumptions = [
         "(b) is metamorphic: it needs no model of what the body means, only that N runs log N times what one run logs",
@@ -486,6 +775,16 @@ def main(chk):
     res = pool.run(run_bounded, cases, timeout=400)
     for c, r in zip(cases, res):
         judge_bounded(chk, c, r)
+    lit = literal_cases(chk)
+    tasks = pool.chunks(lit, 12)
+    for t, rs in zip(tasks, pool.run(run_literals, tasks, timeout=400)):
+        for i, c in enumerate(t):
+            judge_literal(chk, c, rs if isinstance(rs, (pool.HANG, pool.CRASH)) else rs[i])
+    unw = unwind_cases(chk)
+    tasks = pool.chunks(unw, 8)
+    for t, rs in zip(tasks, pool.run(run_unwind, tasks, timeout=600)):
+        for i, c in enumerate(t):
+            judge_unwind(chk, c, rs if isinstance(rs, (pool.HANG, pool.CRASH)) else rs[i])
     chk.exhaustive = False
 
 
@@ -495,6 +794,14 @@ def replay(rec):
     if case.get("sub") == "growth":
         c = (case["shape"], case["src"], case["M"], case.get("T"))
         judge_growth(chk, c, pool.run(run_growth, [c], timeout=200)[0])
+    elif case.get("sub") == "literal":
+        c = (case["kind"], case["literal"], case["wrap"], case["M"], case["d"])
+        r = pool.run(run_literals, [[c]], timeout=400)[0]
+        judge_literal(chk, c, r if isinstance(r, (pool.HANG, pool.CRASH)) else r[0])
+    elif case.get("sub") == "unwind":
+        c = (case["desc"], case["N"], case["M"], True)
+        r = pool.run(run_unwind, [[c]], timeout=600)[0]
+        judge_unwind(chk, c, r if isinstance(r, (pool.HANG, pool.CRASH)) else r[0])
     elif "loop_src" in case:
         # literal program: must end with the uncaught sentinel under the given M
         m = engine.load()
